@@ -19,7 +19,7 @@ from ..catalog import S, M
 from .c04 import local_fixpoint
 
 PROP = 'C14'
-TIERS = {'quick': 7500, 'thorough': 80000}
+TIERS = {'quick': 7500, 'thorough': 1280000}
 RULE = ('each run: one fixed-point block (add, sub, mult, sign, comparator) in a seeded signed format (1, i, f) with '
         '1 <= i+f <= 31 (mult also with a different, legal result format), 16-64 operand pairs: all encodings in shuffled '
         'order for widths <= 6, boundary-biased otherwise (most negative, -1, 0, 1, max, random); non-trivial = >= 8 '
